@@ -388,7 +388,9 @@ def conc(ctx, desc):
 
     import deep.api.attributes as ATT
     # fixed virtual clock: the per-trigger time budget and the limiter must not depend on how long the explorer takes
-    with shims.patched((TL, 'threading', shims.ThreadingShim()), (ATT, 'threading', shims.ThreadingShim())), rig.VirtualClock():
+    import deep.api.tracepoint.trigger as TRm
+    with shims.patched((TL, 'threading', shims.ThreadingShim()), (ATT, 'threading', shims.ThreadingShim()),
+                       (TRm, 'threading', shims.ThreadingShim())), rig.VirtualClock():
         if 'schedule' in desc:
             sched, agent = S.run_one(make, desc['schedule'])
             ctx.traces += 1
